@@ -77,6 +77,56 @@ LevelStep ==
                 <<"CoarseIsPrevious", E.bad # 0 \/ CoarseIsPrevious>>,
                 <<"SameBrownian", E.bad # 0 \/ SameBrownian>> >>)
     /\ prevLvl' = E /\ ln' = ln + 1 /\ UNCHANGED <<tid, fin>>
+
+(***************************************************************************)
+(* The Levy-copula coupling in d dimensions (lattice units, exact).  A     *)
+(* fine state is a tuple of 1-based indices; a coarse state is a fine      *)
+(* state with all indices odd.  E.moves[i] = <<x, N, <<<<y, count>>,..>>>>: *)
+(* of N lattice values of the coupling uniform, count sent x to y.         *)
+(***************************************************************************)
+D == H.d
+AtomIn(at, ax, bd, x) == \A k \in 1..D : Lo(ax[k], bd[k], x[k]) < at[1][k] /\ at[1][k] < Hi(ax[k], bd[k], x[k])
+RateNd(ax, bd, x) == SumSeq([i \in 1..Len(Atoms) |-> IF AtomIn(Atoms[i], ax, bd, x) THEN Atoms[i][2] ELSE 0])
+IsCoarse(x) == \A k \in 1..D : x[k] % 2 = 1
+OddInc(x) == \E k \in 1..D : x[k] % 2 = 0          \* origin index is odd (1-based), so an even index is an odd increment
+MaxLenNd == CHOOSE n \in {Len(E.ax[k]) : k \in 1..D} : \A k \in 1..D : Len(E.ax[k]) <= n
+FineStates == {x \in [1..D -> 1..MaxLenNd] : \A k \in 1..D : x[k] <= Len(E.ax[k])}
+MoveNd(x) == LET S == {i \in 1..Len(E.moves) : E.moves[i][1] = x} IN IF S = {} THEN <<>> ELSE E.moves[CHOOSE i \in S : TRUE]
+\* mass the observed coupling sends from x to y
+SentFrom(m, y) == LET r == RateNd(E.ax, E.bd, m[1]) IN
+                  SumSeq([j \in 1..Len(m[3]) |-> IF m[3][j][1] = y THEN (m[3][j][2] * r) \div m[2] ELSE 0])
+Received(y) == SumSeq([i \in 1..Len(E.moves) |-> SentFrom(E.moves[i], y)])
+MovesExactNd == \A i \in 1..Len(E.moves) : LET r == RateNd(E.ax, E.bd, E.moves[i][1]) IN
+                   /\ \A j \in 1..Len(E.moves[i][3]) : (E.moves[i][3][j][2] * r) % E.moves[i][2] = 0
+                   /\ SumSeq([j \in 1..Len(E.moves[i][3]) |-> E.moves[i][3][j][2]]) = E.moves[i][2]
+MovesCompleteNd == \A x \in FineStates : (OddInc(x) /\ RateNd(E.ax, E.bd, x) > 0) => MoveNd(x) # <<>>
+HalfIdx(y) == [k \in 1..D |-> (y[k] + 1) \div 2]
+GridNestedNd == E.lvl = 0 \/ (prevLvl # <<>> /\ \A k \in 1..D : CoarseAxis(E.ax[k]) = prevLvl.ax[k] /\ E.org[k] = 2 * prevLvl.org[k] - 1)
+TelescopingNd ==
+    /\ \A k \in 1..D : E.org[k] % 2 = 1 /\ Len(E.ax[k]) % 2 = 1
+    /\ MovesExactNd /\ MovesCompleteNd
+    /\ \A y \in FineStates : (IsCoarse(y) /\ y # E.org) =>
+          RateNd(E.ax, E.bd, y) + Received(y) = RateNd(prevLvl.ax, prevLvl.bd, HalfIdx(y))
+LocalityNd ==
+    /\ \A i \in 1..Len(E.evens) : IsCoarse(E.evens[i][1]) /\ E.evens[i][2] = E.evens[i][1]
+    /\ \A i \in 1..Len(E.moves) : LET x == E.moves[i][1] IN
+          \A j \in 1..Len(E.moves[i][3]) : LET y == E.moves[i][3][j][1] IN
+              \A k \in 1..D : IF x[k] % 2 = 1 THEN y[k] = x[k] ELSE y[k] \in {x[k] - 1, x[k] + 1}
+CoarseIsPreviousNd ==
+    IF E.lvl = 0 THEN TRUE
+    ELSE prevLvl # <<>> /\ E.dmC = prevLvl.dmF /\ E.muC = prevLvl.muF /\ E.muF = E.muProc
+SameBrownianNd ==
+    E.lvl = 0 \/ (/\ Len(E.diffF) = D /\ Len(E.diffC) = D
+                  /\ \A k \in 1..D : \A i \in 1..3 : E.diffF[k][i] = E.dmF[k][k] /\ E.diffC[k][i] = E.dmC[k][k])
+LevelNdStep ==
+    /\ More /\ E.e = "LevelNd"
+    /\ Judge(<< <<"Numeric", E.bad = 0>>,
+                <<"GridNested", E.bad # 0 \/ GridNestedNd>>,
+                <<"Telescoping", E.bad # 0 \/ E.lvl = 0 \/ ~GridNestedNd \/ TelescopingNd>>,
+                <<"Locality", E.bad # 0 \/ E.lvl = 0 \/ LocalityNd>>,
+                <<"CoarseIsPrevious", E.bad # 0 \/ CoarseIsPreviousNd>>,
+                <<"SameBrownian", E.bad # 0 \/ SameBrownianNd>> >>)
+    /\ prevLvl' = E /\ ln' = ln + 1 /\ UNCHANGED <<tid, fin>>
 \* SDE coupling: the driver's coarse coefficient and drift at level l are the fine ones of level l-1
 SdeStep ==
     /\ More /\ E.e = "SdeLevel"
@@ -93,6 +143,6 @@ Finish ==
     /\ ~fin /\ ln = Len(T) + 1
     /\ IF bad = 0 THEN PrintT(<<"ACCEPT", Id>>) ELSE TRUE
     /\ fin' = TRUE /\ UNCHANGED <<tid, ln, bad, prevLvl>>
-TraceNext == LevelStep \/ SdeStep \/ RaiseStep \/ Finish
+TraceNext == LevelStep \/ LevelNdStep \/ SdeStep \/ RaiseStep \/ Finish
 TraceSpec == TraceInit /\ [][TraceNext]_tvars
 =============================================================================
